@@ -334,3 +334,9 @@ SPECS["C18"]["harness"].append({"component": "hnd", "args": ["--focus", "c13", "
 SPECS["C20"]["harness"].append({"component": "talk", "args": [], "quick": 400, "thorough": 4000, "profile": "release"})
 SPECS["C06"]["harness"].append({"component": "rpcc", "args": [], "quick": 160, "thorough": 2000, "profile": "release"})
 SPECS["C05"]["harness"].append({"component": "pkt", "args": [], "quick": 96, "thorough": 1000, "profile": "release"})
+
+# C16 at the level of the running node: Discv5::new installs the /24 filters when ip_limit is configured (in every
+# IP mode) and Service::discovered updates records through the table's own update path; the scripted-service
+# histories of C12 with IP limiting always on, as a monitor-only run of C16 (its correspondence belongs to C12)
+SPECS["C16"]["harness"].append({"component": "service", "args": ["--focus", "c12ip"], "quick": 96, "thorough": 1200, "correspondence": False})
+SPECS["C16"]["ctor_parity"] = SPECS["C16"].get("ctor_parity", []) + ["service"]
